@@ -2,6 +2,7 @@
    rule of the database stand-in, exercised by the schedule runs).  Statements only. *)
 From Coq Require Import List ZArith String Bool Lia.
 From LV Require Import Base.Util Ledger.Types Ledger.Core Ledger.Invariants.
+From LV Require Export Props.C14c.   (* concurrent part: theorems over all schedules of the interleaving model Ledger/Conc.v *)
 Import ListNotations.
 Open Scope Z_scope.
 
